@@ -75,7 +75,7 @@ func locTerms(c *Ctx, loc string, t types.Type, depth int) []string {
 	case *types.Struct:
 		var out []string
 		for i := 0; i < u.NumFields(); i++ {
-			out = append(out, locTerms(c, fmt.Sprintf("(lfield %s %d)", loc, i), u.Field(i).Type(), depth+1)...)
+			out = append(out, locTerms(c, c.lfield(loc, u, i), u.Field(i).Type(), depth+1)...)
 		}
 		return out
 	case *types.Array:
